@@ -2,6 +2,7 @@
 // stdin and prints one canonical line per case (see /verif/DESIGN.md §2.3).
 mod codec;
 mod m_lex;
+mod m_parse;
 mod m_symtab;
 mod m_types;
 
@@ -29,6 +30,7 @@ fn main() {
         "types" => m_types::line,
         "symtab" => m_symtab::line,
         "lex" => m_lex::line,
+        "parse" => m_parse::line,
         "uclass" => m_lex::uclass,
         _ => {
             eprintln!("usage: oq3-run <mode>");
